@@ -4,7 +4,7 @@
 # /verif, so that neither /repo nor /verif/theories/Gen is disturbed.  Prints one line per check.
 patch="$1"; shift
 d=$(mktemp -d /tmp/trypatch.XXXXXX)
-cp -r /repo "$d/repo" && rm -rf "$d/repo/.git"
+cp -r "${CGV_REPO_SRC:-/repo}" "$d/repo" && rm -rf "$d/repo/.git"
 (cd "$d/repo" && git init -q . && git add -A >/dev/null 2>&1 && git -c user.email=x@y -c user.name=x commit -qm base >/dev/null 2>&1)
 rsync -a --exclude .git --exclude .work --exclude replays "${CGV_VERIF_SRC:-/verif}/" "$d/verif/"
 if ! (cd "$d/repo" && git apply "$patch"); then echo "PATCH DOES NOT APPLY: $patch"; rm -rf "$d"; exit 2; fi
